@@ -159,6 +159,7 @@ type fsOut struct {
 	RevertFailed bool    `json:"revert_failed,omitempty"`
 	Classes map[string][]int `json:"cpuclasses,omitempty"`
 	Calls  [][]string    `json:"calls"`
+	Probe  interface{}   `json:"restore_probe,omitempty"`
 }
 
 // what the cache file says about a container (told fields only)
@@ -789,6 +790,17 @@ func runScript(t *testing.T, sc *fsScript, w *bufio.Writer) {
 		raw, _ := os.ReadFile(cacheFile)
 		saves = append(saves, raw)
 		out.Disk = readDisk(raw)
+		if i == len(sc.Events)-1 && sc.Policy != "balloons" && out.Reply.Class != "panic" {
+			// after the last event: release every grant and put it back as a refused update does
+			func() {
+				defer func() {
+					if r := recover(); r != nil {
+						out.Probe = []map[string]interface{}{{"id": "", "err": fmt.Sprintf("probe panic: %v", r), "cpu_side": true}}
+					}
+				}()
+				out.Probe = tapolicy.VerifRestoreProbe(inst.backend)
+			}()
+		}
 		enc.Encode(out)
 		w.Flush()
 		if out.Reply.Class == "panic" {
